@@ -333,6 +333,13 @@ def scan_decls(ctx, toks):
                 if prev in ('.', '->', '::'):
                     i += 1; continue
                 ctx.env.setdefault(toks[j].t, (t.t, ref))
+                # further declarators of the same declaration:  TYPE a, b, c;
+                k = j + 1
+                if toks[k].t == ',' and (i == 0 or toks[i - 1].t in (';', '{', '}')):
+                    while k + 1 < len(toks) and toks[k].t == ',' and toks[k + 1].k == 'id' and toks[k + 2].t in (',', ';', '='):
+                        ctx.env.setdefault(toks[k + 1].t, (t.t, False)); k += 2
+                        if toks[k].t == '=':
+                            while toks[k].t not in (',', ';'): k += 1
         i += 1
 
 def is_opt(ctx, name):
@@ -579,6 +586,8 @@ def r_calls(ctx, toks):
                 for a, (pty, pname, pref) in zip(args, params):
                     if pref and [x.t for x in a] == ['(', '*', 'self', ')']:
                         a = [Tok('id', 'self', a[0].ws)]; changed = True; fire(ctx, 'arg-self')
+                    if pref and len(a) == 3 and a[0].t == 'self' and a[1].t == '->' and member_type(ctx, a[2].t):
+                        a = [P('&', a[0].ws)] + a; a[1].ws = ''; changed = True; fire(ctx, 'arg-addr-member')
                     if pref and len(a) == 1 and a[0].k == 'id' and a[0].t in ctx.env and not ctx.env[a[0].t][1]:
                         a = [P('&', a[0].ws), Tok('id', a[0].t, '')]; changed = True; fire(ctx, 'arg-addr')
                     elif (not pref) and pty in STRUCT_TYPES and len(a) == 1 and a[0].k == 'id' and a[0].t in ctx.env \
@@ -904,6 +913,13 @@ def r_return_ref(ctx, toks):
 def resolve_overload(ctx, name, argtoks):
     """overloaded member functions are distinct C functions: NAME, or NAME_<n> by argument count, or per-unit map"""
     ov = ctx.unit.get('overloads') or {}
+    if name in ov and isinstance(ov[name], dict) and ov[name].get('by') == 'last_arg_type':
+        args = split_args(argtoks)
+        last = args[-1] if args else []
+        ty = ctx.env.get(last[0].t, (None,))[0] if len(last) == 1 and last[0].k == 'id' else None
+        if ty not in ov[name]:
+            raise ExtractError('no overload of %s for argument type %s' % (name, ty))
+        return ov[name][ty]
     if name in ov:
         n = len(split_args(argtoks))
         tgt = ov[name]
@@ -1148,5 +1164,58 @@ def r_return_copy(ctx, toks, ret_c):
             if ptr:
                 out.extend([t, Tok('id', ret_c + '_copy', ' '), P('(', '')] + ptr + [P(')', '')])
                 i = j; fire(ctx, 'return-copy'); continue
+        out.append(t); i += 1
+    return out
+
+def r_drop_streams(ctx, toks):
+    """std::stringstream NAME;  and statements  NAME << ... ;  are dropped (exception message text is not part of any contract)"""
+    names = set()
+    out = []; i = 0; n = len(toks)
+    while i < n:
+        t = toks[i]
+        if t.k == 'id' and t.t in ('stringstream', 'ostringstream') and i + 2 < n and toks[i + 1].k == 'id' and toks[i + 2].t == ';':
+            names.add(toks[i + 1].t); i += 3; fire(ctx, 'drop-stream-decl'); continue
+        out.append(t); i += 1
+    if not names:
+        return out
+    res = []; i = 0; n = len(out)
+    while i < n:
+        t = out[i]
+        prev = res[-1].t if res else '{'
+        if t.k == 'id' and t.t in names and i + 1 < n and out[i + 1].t == '<<' and prev in (';', '{', '}'):
+            j = i
+            while out[j].t != ';': j += 1
+            i = j + 1; fire(ctx, 'drop-stream-stmt'); continue
+        res.append(t); i += 1
+    return res
+
+def r_ctor_calls(ctx, toks):
+    """temporary construction  Cls(args)  (not Cls({..}), handled by class ops) -> mk_Cls_<argc>(args)"""
+    out = []; i = 0; n = len(toks)
+    classes = ctx.unit.get('classes', ())
+    while i < n:
+        t = toks[i]
+        if t.k == 'id' and t.t in classes and i + 1 < n and toks[i + 1].t == '(' and toks[i + 2].t != '{' \
+                and (not out or out[-1].t in ('=', 'return', '(', ',', '<', '>', '<=', '>=', '==', '!=', '&&', '||')):
+            e = match_close(toks, i + 1)
+            argc = len(split_args(toks[i + 2:e]))
+            name = 'mk_%s_%d' % (t.t, argc)
+            if name in ctx.sigs:
+                out.append(Tok('id', name, t.ws)); i += 1; fire(ctx, 'ctor-call'); continue
+        out.append(t); i += 1
+    return out
+
+def r_nstring_cmp(ctx, toks):
+    """std::string compared with a string literal / macro:  s != X  ->  nstring_ne_cstr(&s, X)"""
+    out = []; i = 0; n = len(toks)
+    while i < n:
+        t = toks[i]
+        if t.k == 'id' and t.t in ctx.env and ctx.env[t.t][0] == 'nstring' and i + 2 < n and toks[i + 1].t in ('!=', '==') \
+                and (not out or out[-1].t not in ('.', '->')):
+            rhs = toks[i + 2]
+            if rhs.k in ('str', 'id') and (i + 3 >= n or toks[i + 3].t in (')', '&&', '||', ';')):
+                fn = 'nstring_ne_cstr' if toks[i + 1].t == '!=' else 'nstring_eq_cstr'
+                out.extend([Tok('id', fn, t.ws), P('(', '')] + addr(ctx, t.t) + [P(',', ''), rhs, P(')', '')])
+                i += 3; fire(ctx, 'string-compare'); continue
         out.append(t); i += 1
     return out
